@@ -124,4 +124,52 @@ theorem isLca_path_unique {Ls : List (List κ)} {p p' : List κ} {r r' : Nat}
 
 end Unique
 
+section Unique2
+
+variable {κ : Type}
+
+theorem isLca_unique {Ls : List (List κ)} {p p' : List κ} {r r' : Nat}
+    (h : IsLca Ls p r) (h' : IsLca Ls p' r') : p = p' ∧ r = r' := by
+  have hp := isLca_path_unique h h'
+  subst hp
+  refine ⟨rfl, ?_⟩
+  obtain ⟨ks, hnd, hlen, hmem⟩ := h.ext
+  obtain ⟨ks', hnd', hlen', hmem'⟩ := h'.ext
+  rw [← hlen, ← hlen']
+  apply List.Perm.length_eq
+  rw [List.perm_ext_iff_of_nodup hnd hnd']
+  intro a
+  rw [hmem, hmem']
+
+theorem IsLca.congr {Ls Ls' : List (List κ)} (hm : ∀ l, l ∈ Ls ↔ l ∈ Ls') {p : List κ} {r : Nat}
+    (h : IsLca Ls p r) : IsLca Ls' p r := by
+  obtain ⟨l, hl, hp⟩ := h.onPath
+  obtain ⟨ks, h1, h2, h3⟩ := h.ext
+  refine ⟨⟨l, (hm l).mp hl, hp⟩, fun l hl => h.comparable l ((hm l).mpr hl), ⟨ks, h1, h2, ?_⟩, h.notOne⟩
+  intro k
+  rw [h3]
+  constructor
+  · rintro ⟨l, hl, hp⟩; exact ⟨l, (hm l).mp hl, hp⟩
+  · rintro ⟨l, hl, hp⟩; exact ⟨l, (hm l).mpr hl, hp⟩
+
+end Unique2
+
+/-- `find_lca(build_tree(·))` depends only on the set of named taxa sequences -/
+theorem lcaOf_congr {ls ls' : List Lineage} (hne : ls ≠ []) (hne' : ls' ≠ [])
+    (hm : ∀ l, l ∈ ls.map canon ↔ l ∈ ls'.map canon) : lcaOf ls = lcaOf ls' := by
+  have h := IsLca.congr hm (findLca_isLca hne)
+  have h' := findLca_isLca hne'
+  obtain ⟨e1, e2⟩ := isLca_unique h h'
+  exact Prod.ext e1 e2
+
+/-- ... in particular of the set of lineages -/
+theorem lcaOf_congr_mem {ls ls' : List Lineage} (hne : ls ≠ []) (hne' : ls' ≠ [])
+    (hm : ∀ l, l ∈ ls ↔ l ∈ ls') : lcaOf ls = lcaOf ls' := by
+  apply lcaOf_congr hne hne'
+  intro l
+  simp only [List.mem_map]
+  constructor
+  · rintro ⟨a, ha, rfl⟩; exact ⟨a, (hm a).mp ha, rfl⟩
+  · rintro ⟨a, ha, rfl⟩; exact ⟨a, (hm a).mpr ha, rfl⟩
+
 end Sm.Lin
